@@ -14,6 +14,16 @@ BASELINE_OFF = (
 
 # id -> (level, technique, level text, level note, design ref)
 T = {
+    "C13": (
+        "exploration",
+        "exhaustive enumeration of baseline/probe kinds x dtypes x stage presence x stage order x diff options with recording stubs and with the real stages; all ordered 2-call histories on one object",
+        "Stub family: {scalar, RGB} x image class x 3 shapes x 4 dtypes x 0..3 extra baselines x each stage {absent, injective recording stub} x both orders x 4 diff options; real family: "
+        "all monochromatic reductions, TVD variants and linear/scaling models. Every configuration is run on the baseline itself and on mixed-sign / sub-threshold / impulse probes and compared with "
+        "a plain float64 reference composition; the stage call order is read from the stubs' logs; probe snapshots, metadata and result class are checked; an Eulerian circuit over all ordered probe "
+        "pairs on one shared analysis object covers every 2-call history (bit-identical to fresh).",
+        "Trusted: the float64 reference composition in props/c13.py; skimage routines called with the wrapper's parameters for the real TVD stages. hsv reduction on integer dtypes and Bregman TVD on unit extents excluded a priori (documented in describe()).",
+        "DESIGN.md §3 C13",
+    ),
     "C14": (
         "exploration",
         "exhaustive enumeration of explicit signal/parameter/label-map alphabets through the real models, closed-form references (exact rational arithmetic for the polynomial space)",
